@@ -15,10 +15,14 @@ Step ==
       wf == WellFormedStruct(s)
       exp == FileBytes(s)
       rd == ParseFile(Ev.bytes)
+      \* the independent reader is run on what was written unless that is (a) exactly FileBytes(s) -- then the model's own
+      \* invariant InvSpecRoundTrip has settled it for this structure -- or (b) tens of thousands of explicit octets that
+      \* do not follow the layout (the layout clause has fired already; walking them octet by octet takes TLC minutes)
+      readerFails == Ev.bytes # exp /\ Len(Ev.bytes) <= 6000 /\ ~(rd.ok /\ rd.s = Canon(s))
   IN /\ viol' = viol
        \cup (IF wf /\ Ev.encErr # "" THEN {V("C15", "encoding_fails", Sit)} ELSE {})
        \cup (IF wf /\ Ev.encErr = "" /\ Ev.bytes # exp THEN {V("C15", "bytes_follow_layout", Sit)} ELSE {})
-       \cup (IF wf /\ Ev.encErr = "" /\ ~(rd.ok /\ rd.s = Canon(s)) THEN {V("C15", "independent_reader_recovers", Sit)} ELSE {})
+       \cup (IF wf /\ Ev.encErr = "" /\ readerFails THEN {V("C15", "independent_reader_recovers", Sit)} ELSE {})
        \cup (IF wf /\ Ev.encErr = "" /\ Ev.decErr # "" THEN {V("C14", "decoding_fails", Sit)} ELSE {})
        \cup (IF wf /\ Ev.encErr = "" /\ Ev.decErr = "" /\ Canon(Ev.decoded) # Canon(s) THEN {V("C14", "round_trip", Sit)} ELSE {})
      /\ div' = div \cup (IF wf THEN {} ELSE {[trace |-> Ev.trace, step |-> Ev.seq, what |-> "not well-formed: skipped"]})
